@@ -1405,6 +1405,14 @@ class Interp:
                 st = VInt(self.as_int(self.ev(node.slice.step, frame))).const()
                 o = self.unwrap(obj, node)
                 items = o.items if isinstance(o, VTuple) else (self.cell(o).content if self.is_list(o) and isinstance(self.cell(o).content, list) else None)
+                if st == -1 and items is None and lo is None and hi is None:
+                    # x[::-1] of a symbolic sequence: its reversal (same length, element i is element len-1-i)
+                    try:
+                        sq = self.seq_of(obj, node)
+                    except Unsupported:
+                        sq = None
+                    if sq is not None and sq.kind in ('tuple', 'list', 'bytes') and not self.is_list(o):
+                        return VSeq(self.ctx.seq_reverse(sq.th, sq.t), sq.kind, sq.th, getattr(sq, 'ekind', None))
                 if st is None or items is None or lo is not None or hi is not None:
                     raise Unsupported('slice step', node)
                 return VTuple(items[::st]) if isinstance(o, VTuple) else self.alloc(HList(items[::st], self.cell(o).kind))
@@ -1476,7 +1484,14 @@ class Interp:
             if ic is None:
                 s = self.list_to_seq(items, 'list')
                 if s is None:
-                    raise Unsupported('symbolic index into a heterogeneous tuple/list', node)
+                    if self.pure or not items:
+                        raise Unsupported('symbolic index into a heterogeneous tuple/list', node)
+                    # one of the elements, which one is not tracked: an object of unknown kind (over-approximation); the index must be
+                    # in range
+                    i_ = self.as_int(idx, node)
+                    self.require(z3.And(-len(items) <= i_, i_ < len(items)), 'index', node, exc='IndexError')
+                    self.ctx.qcount += 1
+                    return VOpaque(z3.Const('elem!%d' % self.ctx.qcount, T.Obj), 'element')
                 return self.index_seq(s, idx, node)
             if not (-len(items) <= ic < len(items)):
                 if self.pure:
@@ -1801,7 +1816,9 @@ class Interp:
             hnode, hsc = R.helpers[hname]
             self.pure += 1
             try:
-                v = self.call_closure(VClosure(hnode, None, Frame({}, None, sidecar=hsc)), [res], {}, node)
+                # helper(result) or helper(result, arg0, arg1, ...): the assumed relation may mention the arguments of the call
+                n_ = len(hnode.args.args)
+                v = self.call_closure(VClosure(hnode, None, Frame({}, None, sidecar=hsc)), ([res] + list(args))[:max(1, n_)], {}, node)
             finally:
                 self.pure -= 1
             self.assume(self.truthy(v))
